@@ -83,6 +83,8 @@ def make_judge(rows):
         hexs = iw[0]
         want = ref.get(op)
         # the property's oracle: documented bytes, by two independent reference encoders
+        if spec in ("rejected", "illtyped", "bad-op") or model in ("rejected", "illtyped", "bad-op"):
+            return "corr"       # the model's `accepted` / `hasTy` disagrees with what rustc and the macro accepted
         if spec not in ("toolarge", None) and hexs != spec:
             return "violation"
         if want is not None and hexs != (want or "-"):
